@@ -13,6 +13,7 @@ and of lambda_o, lambda_o -+ h (the hypotheses identify the index at the exact p
 Measured over 2000 cases (seed 7, 60-digit reference evaluation of the same formulas): max relative deviation 6.0e-14 (group velocity,
 group index, transit time), 8.5e-15 (phase velocity, effective index); 1e-11 leaves two orders of margin."""
 from vlib.common import *
+from vlib import auxprops
 
 TOL = "1e-11"
 IMPORTS = ("From SpdVerif Require Import Base.Rx Spec.CrystalTypes Model.Optics Gen.Fresnel Gen.Kinematics "
@@ -37,6 +38,7 @@ def goals_of(o, k):
 
 C_LIGHT = 299792458.0
 STAGE = "kinematics"
+AUX = "auxiliary model (kinematics) no longer corresponds: "
 
 
 def expected(o):
@@ -52,7 +54,8 @@ def expected(o):
 
 
 def oracle(ctx, obs):
-    """S5 on the implementation's outputs: finite, n_eff / v_p / v_g / n_g / transit time equal to the property's formulas on the code's
+    """S5 on the implementation's outputs (an AUXILIARY model: none of this is a clause of the host property's text, so every disagreement is a
+    broken correspondence, found_input=False, and is worded as such): finite, n_eff / v_p / v_g / n_g / transit time equal to the property's formulas on the code's
     own index samples (1e-9 relative), v_g n_g = c, refractive_index = index_along at the own wavelength.  Returns the usable observations."""
     good = []
     for o in obs:
@@ -63,24 +66,25 @@ def oracle(ctx, obs):
         ctx.seen(("kin", o["crystal"], o["omega"], o["pol"], o["period"]))
         ctx.count(f"kin:{o['crystal']}:{'poled' if o['period'] is not None else 'unpoled'}")
         if not o.get("ok"):
-            ctx.violation("S5", f"beam kinematics panic for {where}: {o.get('panic')}",
-                          {"kind": "kin_panic", "crystal": o["crystal"]}, {"stage": STAGE, "regenerate": regen_, "observation": o})
+            ctx.violation("S5", AUX + f"beam kinematics panic for {where}: {o.get('panic')}",
+                          {"kind": "kin_panic", "crystal": o["crystal"]}, {"stage": STAGE, "regenerate": regen_, "observation": o}, found_input=False)
             continue
         vals = {q: f64_of_hex(o[q]) for q in ("n_eff", "vp", "vg", "ng", "transit", "n0")}
         if not all(v == v and abs(v) != float("inf") for v in vals.values()):
-            ctx.violation("S5", f"non-finite beam kinematics for {where}: {vals}",
-                          {"kind": "kin_nonfinite", "crystal": o["crystal"]}, {"stage": STAGE, "regenerate": regen_, "observation": o})
+            ctx.violation("S5", AUX + f"non-finite beam kinematics for {where}: {vals}",
+                          {"kind": "kin_nonfinite", "crystal": o["crystal"]}, {"stage": STAGE, "regenerate": regen_, "observation": o}, found_input=False)
             continue
         if abs(vals["vg"] * vals["ng"] - C_LIGHT) > 1e-12 * C_LIGHT or o["n_self"] != o["n0"]:
-            ctx.violation("S5", f"group_velocity * group_index differs from c (or refractive_index is not index_along at the own wavelength) for {where}",
-                          {"kind": "kin_vg_ng", "crystal": o["crystal"]}, {"stage": STAGE, "regenerate": regen_, "observation": o})
+            ctx.violation("S5", AUX + f"group_velocity * group_index differs from c (or refractive_index is not index_along at the own wavelength) for {where}",
+                          {"kind": "kin_vg_ng", "crystal": o["crystal"]}, {"stage": STAGE, "regenerate": regen_, "observation": o}, found_input=False)
         exp = expected(o)
         for q, name in (("n_eff", "effective_index_of_refraction"), ("vp", "phase_velocity"), ("vg", "group_velocity"), ("ng", "group_index"),
                         ("transit", "average_transit_time")):
             if abs(vals[q] - exp[q]) > 1e-9 * abs(exp[q]):
-                ctx.violation("S5", f"Beam::{name} = {vals[q]!r} for {where}, but v_p = c/n_eff, v_g = v_p (1 + (lambda/n_eff) dn/dlambda), n_g = c/v_g, "
+                ctx.violation("S5", AUX + f"Beam::{name} = {vals[q]!r} for {where}, but v_p = c/n_eff, v_g = v_p (1 + (lambda/n_eff) dn/dlambda), n_g = c/v_g, "
                                     f"T = (L/2)/|cos theta|/v_g on the code's own index samples give {exp[q]!r}",
-                              {"kind": "kin_value", "quantity": q}, {"stage": STAGE, "regenerate": regen_, "observation": o, "expected": exp})
+                              {"kind": "kin_value", "quantity": q}, {"stage": STAGE, "regenerate": regen_, "observation": o, "expected": exp},
+                              found_input=False)
                 break
         good.append(o)
     return good
@@ -90,13 +94,16 @@ def run_stage(ctx, binp=None, n=None):
     """returns the number of disagreeing goals; violations and broken obligations are registered on ctx"""
     binp = binp or build_harness(ctx)
     n = n or (40 if ctx.tier == "quick" else 300)
-    for m in getattr(ctx, "gen_msgs_all", []):      # set by regen(): a refused source construct is a broken obligation here
-        if m.rstrip().endswith("[generator kinematics]") and not any(m == pf[2] for pf in ctx.proof_failures):
+    n0 = len(ctx.proof_failures)
+    for m in auxprops.refusals(ctx, ["kinematics"]):      # a refused source construct is a broken obligation of the auxiliary composition
+        if not any(m == pf[2] for pf in ctx.proof_failures):
             ctx.proof_failures.append(("Gen/Kinematics.v", "translator", m))
     ok, fails, _ = coq_build(ctx, ["Proofs/Compose_kinematics_links.vo", "Proofs/Compose_kinematics_cases.vo"], timeout=1200)
     if not ok:
-        ctx.proof_failures.extend(f for f in fails if f not in ctx.proof_failures)
-        ctx.note("kinematics: Gen/Kinematics.v or its lemmas did not build; the generated definitions are not compared, the implementation's "
+        ctx.proof_failures.extend(f for f in fails if not any(f[1:] == g[1:] and str(g[0]).endswith(str(f[0])) for g in ctx.proof_failures))
+    auxprops.label_failures(ctx, n0)
+    if not ok:
+        ctx.note("auxiliary model (kinematics): Gen/Kinematics.v or its lemmas did not build; the generated definitions are not compared, the implementation's "
                  "values are still checked against the property's formulas")
     args = ["kin", ctx.seed, n]
     obs = run_harness(ctx, binp, args)
@@ -117,7 +124,7 @@ def run_stage(ctx, binp=None, n=None):
             continue
         nbad += 1
         o = meta[cid]
-        ctx.violation("S4", f"generated beam kinematics and implementation disagree ({cid.split('_', 1)[1]}) for {o['crystal']}, "
+        ctx.violation("S4", AUX + f"generated beam kinematics and implementation disagree ({cid.split('_', 1)[1]}) for {o['crystal']}, "
                             f"{f64_of_hex(o['lambda']) * 1e9:.2f} nm, {'poled' if o['period'] is not None else 'unpoled'}",
                       {"kind": "kin_model_mismatch", "quantity": cid.split("_", 1)[1]}, {"stage": STAGE, "case": cid, "observation": o}, found_input=False)
     return nbad
